@@ -109,6 +109,9 @@ func (pc *posChecker) order(what string, n ast.Node) {
 	if e.IsZero() && !p.IsZero() {
 		pc.failf("%s:zero-end", what)
 	}
+	if p.IsZero() && !e.IsZero() {
+		pc.failf("%s:zero-pos:end=%d:%d", what, e.Line(), e.Col())
+	}
 	if _, ok := pc.textAt(p); !ok && !p.IsZero() {
 		pc.failf("%s:pos-outside:%d:%d", what, p.Line(), p.Col())
 	}
